@@ -404,7 +404,7 @@ impl DGen {
     pub fn expr(&mut self, vars: &[u32]) -> Vec<Op> {
         let var = |g: &mut DGen| -> Op {
             if vars.is_empty() || g.rng.chance(1, 12) {
-                if g.rng.chance(1, 3) {
+                if g.risky && g.rng.chance(1, 3) {
                     Op::Var(9) // unbound
                 } else {
                     Op::Val(g.constant())
